@@ -96,6 +96,22 @@ def run_cells(prop, tier, seed, plan, outdir, only=None, cell=None):
     return results
 
 
+def _same(a, b, atol=1e-9, rtol=1e-9):
+    """Cross-cell equality: exact for strings/ints, tolerant for floats, recursive for lists/dicts."""
+    if isinstance(a, float) or isinstance(b, float):
+        try:
+            if a != a and b != b:
+                return True
+            return abs(a - b) <= atol + rtol * abs(b)
+        except Exception:
+            return False
+    if isinstance(a, (list, tuple)) and isinstance(b, (list, tuple)):
+        return len(a) == len(b) and all(_same(x, y, atol, rtol) for x, y in zip(a, b))
+    if isinstance(a, dict) and isinstance(b, dict):
+        return set(a) == set(b) and all(_same(a[k], b[k], atol, rtol) for k in a)
+    return a == b
+
+
 def read_cell(path):
     cases, end = [], None
     if not os.path.exists(path):
@@ -220,7 +236,7 @@ def _run(args, prop, tier, seed, mod, plan, outdir, t0):
             xcell_compared += 1
             first = vals[0][0]
             for (val, j, r) in vals[1:]:
-                if val != first:
+                if not _same(val, first):
                     vio = {"key": f"xcell:{k}", "what": f"answer digest for '{k}' differs between cells "
                            f"{vals[0][1]['hashseed']}/{vals[0][1]['backend']} and {j['hashseed']}/{j['backend']}",
                            "detail": {"a": first, "b": val}}
